@@ -443,6 +443,46 @@ def runI (ws : List String) : String :=
     | _, _, _, _ => "bad-op"
   | _ => "bad-op"
 
+/-- `cpus <p|a> <steps> <events k:n|k:i|k:r,..|-> <19 register fields> <seed> <ovl>`: a scenario — before step `k` the harness sets
+the NMI latch (`n`), calls `TriggerIRQ()` (`i`) or `Reset()` (`r`); every step is the full `Step()` with the current latch -/
+def runS (ws : List String) : String :=
+  match ws with
+  | v :: n :: ev :: rest =>
+    if rest.length != 21 then "bad-op" else
+    match parseRegs (rest.take 19), hexNat? (rest.getD 19 ""), hexNat? n with
+    | some r, some seed, some n =>
+      let ovl := parseOvl (rest.getD 20 "-")
+      let base : Nat → U8 := fun a => match ovl.find? (·.1 == a) with
+        | some (_, x) => BitVec.ofNat 8 x
+        | none => BitVec.ofNat 8 (hash8 seed.toUInt64 a.toUInt32).toNat
+      let variant := if v == "a" then Variant.alt else Variant.primary
+      let events : List (Nat × String) := if ev == "-" then [] else
+        (ev.splitOn ",").filterMap (fun e => match e.splitOn ":" with
+          | [k, what] => (hexNat? k).map (fun k => (k, what))
+          | _ => none)
+      let rec go (fuel : Nat) (k : Nat) (latch : Nat) (s : St) (acc : List String) : List String :=
+        match fuel with
+        | 0 => acc.reverse
+        | fuel + 1 =>
+          -- events of this step, in the order given
+          let evs := (events.filter (·.1 == k)).map (·.2)
+          let pre : Option (Nat × St) := evs.foldl (fun st e => match st with
+            | none => none
+            | some (l, s) =>
+              if e == "n" then some (triggerNMI variant, s)
+              else if e == "i" then some (triggerIRQ variant s.r l, s)
+              else if e == "r" then (match reset s with | none => none | some (_, s') => some (l, s'))
+              else some (l, s)) (some (latch, s))
+          match pre with
+          | none => ("crash" :: acc).reverse
+          | some (l, s1) =>
+            match stepFull variant l s1 with
+            | none => ("crash" :: acc).reverse
+            | some (_, s') => go fuel (k + 1) (latchNone variant) s' ((canon s'.r ++ "|" ++ writesStr s'.m) :: acc)
+      ";".intercalate (go n 0 (latchNone variant) ⟨r, ⟨base, []⟩⟩ [])
+    | _, _, _ => "bad-op"
+  | _ => "bad-op"
+
 /-- `cpureset <19 register fields> <seed> <ovl>`: the state after `Reset()` -/
 def runReset (ws : List String) : String :=
   if ws.length != 21 then "bad-op" else
@@ -529,6 +569,7 @@ def handle (line : String) : String :=
   if line.startsWith "runu " then CpuDrv.runUntil (((line.drop 5).toString.splitOn " ").filter (· ≠ "")) else
   if line.startsWith "trace " then CpuDrv.trace (((line.drop 6).toString.splitOn " ").filter (· ≠ "")) else
   if line.startsWith "spec " then CpuDrv.spec (((line.drop 5).toString.splitOn " ").filter (· ≠ "")) else
+  if line.startsWith "cpus " then CpuDrv.runS (((line.drop 5).toString.splitOn " ").filter (· ≠ "")) else
   if line.startsWith "cpui " then CpuDrv.runI (((line.drop 5).toString.splitOn " ").filter (· ≠ "")) else
   if line.startsWith "cpureset " then CpuDrv.runReset (((line.drop 9).toString.splitOn " ").filter (· ≠ "")) else
   if line.startsWith "cpu " then CpuDrv.run (((line.drop 4).toString.splitOn " ").filter (· ≠ "")) else
